@@ -64,6 +64,22 @@ macro_rules! core_configs {
             $m!($run, d64, 8, BigRef);
             $m!($run, d64, 16, BigRef);
             $m!($run, d64, 64, BigRef);
+            // digit-count sweep: every N up to 13 and 16 with the narrowest digit (loop unrolling by
+            // 2 / 4 / 8, leftovers, gcd(N, shift) cycles), 6 and 7 with the others
+            $m!($run, d8, 6, BigRef);
+            $m!($run, d8, 7, BigRef);
+            $m!($run, d8, 9, BigRef);
+            $m!($run, d8, 10, BigRef);
+            $m!($run, d8, 11, BigRef);
+            $m!($run, d8, 12, BigRef);
+            $m!($run, d8, 13, BigRef);
+            $m!($run, d8, 16, BigRef);
+            $m!($run, d16, 6, BigRef);
+            $m!($run, d16, 7, BigRef);
+            $m!($run, d32, 6, BigRef);
+            $m!($run, d32, 7, BigRef);
+            $m!($run, d64, 6, BigRef);
+            $m!($run, d64, 7, BigRef);
         }
     };
 }
